@@ -150,6 +150,21 @@ CLAIMS = {
             "--json in a materialised project; Trace_C14 compares reported findings and unused-suppression reports with P.",
             "single-line statements at program level in the JavaScript carrier",
             "DESIGN.md section 3 C14"),
+    "C15": ("model_checking",
+            "decision table rule x file (Dispatch.tla: statement vs RuleCollection/RuleOverwrite/walker transcription) "
+            "model-checked by TLC over project configurations; configurations materialised on disk and run by sg scan, judged by TLC",
+            "Dispatch.tla fixes 8 paths, their languages (incl. a languageGlobs-only extension) and a hand-written glob "
+            "truth table; P says a rule applies iff language, files, not ignores, --filter selection and effective "
+            "severity (by-id override, else bare override, else own) != off; I transcribes process_configs, "
+            "RuleCollection (off dropped, tenured/contingent, ignores before files) and the walker's language types. "
+            "MC_C15 checks I = P for every configuration (2 rules x language x files x ignores x severity x 30 override "
+            "sets x languageGlobs). A stride of the configurations is materialised as a project and scanned by sgv scan "
+            "--json from the project root; Trace_C15 compares the rule ids per file, the printed severities and the exit "
+            "status (1 iff a printed finding has severity error; command-level failures such as --filter selecting "
+            "nothing must print nothing and not exit 0/1).",
+            "globs outside the table and `*` vs `/` subtleties of globset are not covered; bare flag + same flag with "
+            "id is not generated (the property is silent)",
+            "DESIGN.md section 3 C15"),
 }
 
 NOT_YET = "check not built yet in this round (construction order in DESIGN.md section 9); not claimed until it runs"
